@@ -42,6 +42,18 @@ def exc_signature(res):
 
 
 def diagnostic_lines(res):
+    if '--dump-config' in res.spec.get('opts', []):
+        # the dumped configuration is printed on stdout as well: only look at
+        # the lines ddSMT itself marks as messages
+        out = [ln for ln in res.stdout.splitlines()
+               if ln.startswith('[ddsmt]')]
+        return out + [ln for ln in res.stderr.splitlines()
+                      if ln.startswith('[ddSMT ERROR]')
+                      or ln.startswith('Traceback')]
+    return _diagnostic_lines(res)
+
+
+def _diagnostic_lines(res):
     """Diagnostics shown to the user: everything on stdout plus error-level
     log lines (info/debug/warning output of -v and its unprefixed
     continuation lines are not diagnostics)."""
@@ -99,6 +111,9 @@ class C04(props.Prop):
         spec['launcher'] = 'bin' if rng.random() < 0.15 else 'main'
         scen = rng.choice(['none', 'none', 'usage', 'mutator', 'mutator',
                            'cand_io', 'interrupt', 'memerr', 'worker_exc'])
+        if rng.random() < 0.03:
+            scen = 'parser_test'
+            spec['opts'].append('--parser-test')
         spec['scenario'] = scen
         if scen == 'usage':
             u = rng.choice(['no_infile', 'no_cmd', 'cmd_not_exec',
@@ -233,6 +248,14 @@ class C04(props.Prop):
                       stderr=res.stderr[-800:])
         # (b) exit status
         must_fail = scen.startswith('usage')
+        if scen == 'parser_test' and res.outcome != 'exception':
+            # only parses and prints: status 0, nothing is run
+            if res.status != 0 or rec.inv:
+                v.violate('parser-test', 'C04:parser-test',
+                          f'--parser-test ended with status {res.status} '
+                          f'after {len(rec.inv)} command invocations')
+            v.nontrivial = True
+            return v
         terminated = interrupted
         if res.outcome != 'exception':
             if must_fail or terminated:
